@@ -163,10 +163,10 @@ def run_history_prop(ctx):
             m = re.search(r"HANG property=\S+ replay=(\S+)", out)
             path = m.group(1) if m else ""
             cmd2 = [_itv(ctx, prof), "replay", "--prop", prop, "--file", path, "--any-sig"] + (["--payload", payload] if payload else [])
-            rc2, out2, _ = ctx["sh"](cmd2, timeout=600)
+            rc2, out2, _ = ctx["sh"](cmd2, timeout=360)
             if rc2 == 124:
                 if prop == "C02":
-                    res["violations"].append((path, f"[{tag} build] a call of this history does not return (confirmed twice: > 300 s and > 600 s; normally milliseconds)"))
+                    res["violations"].append((path, f"[{tag} build] a call of this history does not return (confirmed twice: > 180 s and > 360 s; normally milliseconds)"))
                 else:
                     res["inconclusive"] = f"a case hangs ({path}); a call that does not return is judged by the C02 check"
             elif rc2 == 1 and "REPLAY-FAILS" in out2:
@@ -595,7 +595,7 @@ def merge_coverage(prop, partials, spec):
         cov["exhaustive"] = False  # the run as a whole is a bounded exploration; see exhaustive_subruns
     cov["sub_runs"] = [
         {k: p.get(k) for k in ("build", "label", "evaluations", "distinct_nontrivial", "cases", "steps", "skipped_ops", "excluded_by_construction", "engines", "features",
-                                 "max_live_hist", "max_depth_hist", "generator_health", "other_property_failures", "wall_s", "extra") if k in p}
+                                 "max_live_hist", "max_depth_hist", "generator_health", "other_property_failures", "slowest_case_ms", "wall_s", "extra") if k in p}
         for p in partials
     ]
     # the op x relation matrix of the first sub-run (identical generation in the others)
